@@ -286,7 +286,7 @@ func (vc *VC) mergeStates(sts []*State) *State {
 			idx := map[*ssa.Defer]int{}
 			for _, s := range sts {
 				for _, de := range s.defers {
-					g := and(s.pc, de.guard)
+					g := and(s.cfOr(), de.guard)
 					if k, ok := idx[de.d]; ok {
 						m.defers[k].guard = or(m.defers[k].guard, g)
 					} else {
@@ -301,6 +301,13 @@ func (vc *VC) mergeStates(sts []*State) *State {
 		}
 	}
 	m.pc = vc.define("pc", "Bool", or(pcs...))
+	{
+		var cfs []Term
+		for _, s := range sts {
+			cfs = append(cfs, s.cfOr())
+		}
+		m.cf = vc.define("cf", "Bool", or(cfs...))
+	}
 	sameEp := true
 	for _, s := range sts[1:] {
 		if s.ep != sts[0].ep {
@@ -312,7 +319,7 @@ func (vc *VC) mergeStates(sts []*State) *State {
 	} else {
 		ne := &epoch{id: -1}
 		for _, s := range sts {
-			ne.conds = append(ne.conds, s.pc)
+			ne.conds = append(ne.conds, s.cfOr())
 			ne.subs = append(ne.subs, s.ep)
 		}
 		m.ep = ne
@@ -337,12 +344,12 @@ func (vc *VC) mergeStates(sts []*State) *State {
 			if ti != t {
 				same = false
 			}
-			t = ite(sts[i].pc, ti, t)
+			t = ite(sts[i].cfOr(), ti, t)
 		}
 		if same {
 			m.heap[c] = vc.heapGet(sts[0], c, srt)
 		} else {
-			m.heap[c] = vc.define("H."+c, srt, t)
+			m.heap[c] = vc.defineByAxiom("H."+c, srt, t)
 		}
 	}
 	for _, s := range sts {
@@ -357,7 +364,7 @@ func (vc *VC) mergeStates(sts []*State) *State {
 	}
 	a := sts[len(sts)-1].alloc
 	for i := len(sts) - 2; i >= 0; i-- {
-		a = ite(sts[i].pc, sts[i].alloc, a)
+		a = ite(sts[i].cfOr(), sts[i].alloc, a)
 	}
 	m.alloc = vc.define("alloc", "Int", a)
 	return m
@@ -509,7 +516,7 @@ func (vc *VC) processRegion(region map[*ssa.BasicBlock]bool, start *ssa.BasicBlo
 				// phis
 				var conds []Term
 				for _, s := range ins {
-					conds = append(conds, s.pc)
+					conds = append(conds, s.cfOr())
 				}
 				for _, in := range b.Instrs {
 					ph, ok := in.(*ssa.Phi)
@@ -735,6 +742,7 @@ func (vc *VC) enterLoop(li *loopInfo, ins []*State, preds []*ssa.BasicBlock) *St
 	vc.touched, vc.topHit, vc.dry = map[string]bool{}, false, true
 	dryState := merged.clone()
 	dryState.pc = "true"
+	dryState.cf = "true"
 	vc.processRegion(li.body, h, dryState, freshPhis())
 	touched, top := vc.touched, vc.topHit
 	vc.touched, vc.topHit, vc.dry = savedTouched, savedTop, savedDry
@@ -917,6 +925,9 @@ func (vc *VC) branch(b *ssa.BasicBlock, succIdx int, st *State, cond Term, regio
 	}
 	ns := st.clone()
 	vc.assume(ns, cond)
+	if cond != "true" {
+		ns.cf = vc.define("cf", "Bool", and(ns.cfOr(), cond))
+	}
 	e := edge{b.Index, s.Index}
 	if vc.cfg.backEdge[e] {
 		li := vc.cfg.loops[s]
